@@ -80,8 +80,8 @@ func init() {
 	pathSpec["vm|do_SETUP_WITH"] = []string{
 		"[err != nil] GetAttrString(slot0, \"__exit__\") -> err!",
 		"[err == nil] GetAttrString(slot0, \"__exit__\"); GetAttrString(slot0, \"__enter__\") -> err!",
-		"[err == nil] GetAttrString(slot0, \"__exit__\"); GetAttrString(slot0, \"__enter__\"); Call(py.GetAttrString#0, nil, nil) -> err!",
-		"[err == nil] GetAttrString(slot0, \"__exit__\"); GetAttrString(slot0, \"__enter__\"); Call(py.GetAttrString#0, nil, nil); vm.frame.PushBlock(2, delta + vm.frame.Lasti, H0) -> nil",
+		"[err == nil] GetAttrString(slot0, \"__exit__\"); GetAttrString(slot0, \"__enter__\"); Call(py.GetAttrString#0'2, nil, nil) -> err!",
+		"[err == nil] GetAttrString(slot0, \"__exit__\"); GetAttrString(slot0, \"__enter__\"); Call(py.GetAttrString#0'2, nil, nil); vm.frame.PushBlock(2, delta + vm.frame.Lasti, H0) -> nil",
 	}
 	// the implicit `return None` is omitted only when the very last element of the instruction stream is a RETURN_VALUE: a trailing label is a jump target that needs an instruction after it  []
 	pathSpec["compile|Instructions.EndsWithReturn"] = []string{
@@ -224,29 +224,29 @@ func init() {
 	}
 	// sort comparison: items fetched, key function applied to both, then a strict less-than with the operands exchanged for reverse (not the result inverted, which is not a strict order and breaks stability)  []
 	pathSpec["py|ptrSortable.Less"] = []string{
-		"[!(cmpResult.(Bool)) && !(s.s.reverse) && err == nil && s.s.keyFunc != None] s.s.l.M__getitem__(i); s.s.l.M__getitem__(j); Call(s.s.keyFunc, composite[(*py.List).M__getitem__#0], nil); Call(s.s.keyFunc, composite[(*py.List).M__getitem__#0], nil); Lt(py.Call#0, py.Call#0) -> false",
-		"[!(cmpResult.(Bool)) && !(s.s.reverse) && err == nil && s.s.keyFunc == None] s.s.l.M__getitem__(i); s.s.l.M__getitem__(j); Lt((*py.List).M__getitem__#0, (*py.List).M__getitem__#0) -> false",
-		"[!(cmpResult.(Bool)) && err == nil && s.s.keyFunc != None && s.s.reverse] s.s.l.M__getitem__(i); s.s.l.M__getitem__(j); Call(s.s.keyFunc, composite[(*py.List).M__getitem__#0], nil); Call(s.s.keyFunc, composite[(*py.List).M__getitem__#0], nil); Lt(py.Call#0, py.Call#0) -> false",
-		"[!(cmpResult.(Bool)) && err == nil && s.s.keyFunc == None && s.s.reverse] s.s.l.M__getitem__(i); s.s.l.M__getitem__(j); Lt((*py.List).M__getitem__#0, (*py.List).M__getitem__#0) -> false",
-		"[!(s.s.reverse) && cmpResult.(Bool) && err == nil && s.s.keyFunc != None] s.s.l.M__getitem__(i); s.s.l.M__getitem__(j); Call(s.s.keyFunc, composite[(*py.List).M__getitem__#0], nil); Call(s.s.keyFunc, composite[(*py.List).M__getitem__#0], nil); Lt(py.Call#0, py.Call#0) -> py.Lt#0",
-		"[!(s.s.reverse) && cmpResult.(Bool) && err == nil && s.s.keyFunc == None] s.s.l.M__getitem__(i); s.s.l.M__getitem__(j); Lt((*py.List).M__getitem__#0, (*py.List).M__getitem__#0) -> py.Lt#0",
-		"[!(s.s.reverse) && err == nil && s.s.firstErr != nil && s.s.keyFunc != None] s.s.l.M__getitem__(i); s.s.l.M__getitem__(j); Call(s.s.keyFunc, composite[(*py.List).M__getitem__#0], nil); Call(s.s.keyFunc, composite[(*py.List).M__getitem__#0], nil); Lt(py.Call#0, py.Call#0) -> false",
-		"[!(s.s.reverse) && err == nil && s.s.firstErr != nil && s.s.keyFunc == None] s.s.l.M__getitem__(i); s.s.l.M__getitem__(j); Lt((*py.List).M__getitem__#0, (*py.List).M__getitem__#0) -> false",
-		"[!(s.s.reverse) && err == nil && s.s.firstErr == nil && s.s.keyFunc != None] s.s.l.M__getitem__(i); s.s.l.M__getitem__(j); Call(s.s.keyFunc, composite[(*py.List).M__getitem__#0], nil); Call(s.s.keyFunc, composite[(*py.List).M__getitem__#0], nil); Lt(py.Call#0, py.Call#0); s.s.firstErr = err! -> false",
-		"[!(s.s.reverse) && err == nil && s.s.firstErr == nil && s.s.keyFunc == None] s.s.l.M__getitem__(i); s.s.l.M__getitem__(j); Lt((*py.List).M__getitem__#0, (*py.List).M__getitem__#0); s.s.firstErr = err! -> false",
-		"[cmpResult.(Bool) && err == nil && s.s.keyFunc != None && s.s.reverse] s.s.l.M__getitem__(i); s.s.l.M__getitem__(j); Call(s.s.keyFunc, composite[(*py.List).M__getitem__#0], nil); Call(s.s.keyFunc, composite[(*py.List).M__getitem__#0], nil); Lt(py.Call#0, py.Call#0) -> py.Lt#0",
-		"[cmpResult.(Bool) && err == nil && s.s.keyFunc == None && s.s.reverse] s.s.l.M__getitem__(i); s.s.l.M__getitem__(j); Lt((*py.List).M__getitem__#0, (*py.List).M__getitem__#0) -> py.Lt#0",
+		"[!(cmpResult.(Bool)) && !(s.s.reverse) && err == nil && s.s.keyFunc != None] s.s.l.M__getitem__(i); s.s.l.M__getitem__(j); Call(s.s.keyFunc, composite[(*py.List).M__getitem__#0], nil); Call(s.s.keyFunc, composite[(*py.List).M__getitem__#0'2], nil); Lt(py.Call#0, py.Call#0'2) -> false",
+		"[!(cmpResult.(Bool)) && !(s.s.reverse) && err == nil && s.s.keyFunc == None] s.s.l.M__getitem__(i); s.s.l.M__getitem__(j); Lt((*py.List).M__getitem__#0, (*py.List).M__getitem__#0'2) -> false",
+		"[!(cmpResult.(Bool)) && err == nil && s.s.keyFunc != None && s.s.reverse] s.s.l.M__getitem__(i); s.s.l.M__getitem__(j); Call(s.s.keyFunc, composite[(*py.List).M__getitem__#0], nil); Call(s.s.keyFunc, composite[(*py.List).M__getitem__#0'2], nil); Lt(py.Call#0'2, py.Call#0) -> false",
+		"[!(cmpResult.(Bool)) && err == nil && s.s.keyFunc == None && s.s.reverse] s.s.l.M__getitem__(i); s.s.l.M__getitem__(j); Lt((*py.List).M__getitem__#0'2, (*py.List).M__getitem__#0) -> false",
+		"[!(s.s.reverse) && cmpResult.(Bool) && err == nil && s.s.keyFunc != None] s.s.l.M__getitem__(i); s.s.l.M__getitem__(j); Call(s.s.keyFunc, composite[(*py.List).M__getitem__#0], nil); Call(s.s.keyFunc, composite[(*py.List).M__getitem__#0'2], nil); Lt(py.Call#0, py.Call#0'2) -> py.Lt#0",
+		"[!(s.s.reverse) && cmpResult.(Bool) && err == nil && s.s.keyFunc == None] s.s.l.M__getitem__(i); s.s.l.M__getitem__(j); Lt((*py.List).M__getitem__#0, (*py.List).M__getitem__#0'2) -> py.Lt#0",
+		"[!(s.s.reverse) && err == nil && s.s.firstErr != nil && s.s.keyFunc != None] s.s.l.M__getitem__(i); s.s.l.M__getitem__(j); Call(s.s.keyFunc, composite[(*py.List).M__getitem__#0], nil); Call(s.s.keyFunc, composite[(*py.List).M__getitem__#0'2], nil); Lt(py.Call#0, py.Call#0'2) -> false",
+		"[!(s.s.reverse) && err == nil && s.s.firstErr != nil && s.s.keyFunc == None] s.s.l.M__getitem__(i); s.s.l.M__getitem__(j); Lt((*py.List).M__getitem__#0, (*py.List).M__getitem__#0'2) -> false",
+		"[!(s.s.reverse) && err == nil && s.s.firstErr == nil && s.s.keyFunc != None] s.s.l.M__getitem__(i); s.s.l.M__getitem__(j); Call(s.s.keyFunc, composite[(*py.List).M__getitem__#0], nil); Call(s.s.keyFunc, composite[(*py.List).M__getitem__#0'2], nil); Lt(py.Call#0, py.Call#0'2); s.s.firstErr = err! -> false",
+		"[!(s.s.reverse) && err == nil && s.s.firstErr == nil && s.s.keyFunc == None] s.s.l.M__getitem__(i); s.s.l.M__getitem__(j); Lt((*py.List).M__getitem__#0, (*py.List).M__getitem__#0'2); s.s.firstErr = err! -> false",
+		"[cmpResult.(Bool) && err == nil && s.s.keyFunc != None && s.s.reverse] s.s.l.M__getitem__(i); s.s.l.M__getitem__(j); Call(s.s.keyFunc, composite[(*py.List).M__getitem__#0], nil); Call(s.s.keyFunc, composite[(*py.List).M__getitem__#0'2], nil); Lt(py.Call#0'2, py.Call#0) -> py.Lt#0",
+		"[cmpResult.(Bool) && err == nil && s.s.keyFunc == None && s.s.reverse] s.s.l.M__getitem__(i); s.s.l.M__getitem__(j); Lt((*py.List).M__getitem__#0'2, (*py.List).M__getitem__#0) -> py.Lt#0",
 		"[err != nil && s.s.firstErr != nil] s.s.l.M__getitem__(i) -> false",
 		"[err != nil && s.s.firstErr == nil] s.s.l.M__getitem__(i); s.s.firstErr = err! -> false",
-		"[err == nil && s.s.firstErr != nil && s.s.keyFunc != None && s.s.reverse] s.s.l.M__getitem__(i); s.s.l.M__getitem__(j); Call(s.s.keyFunc, composite[(*py.List).M__getitem__#0], nil); Call(s.s.keyFunc, composite[(*py.List).M__getitem__#0], nil); Lt(py.Call#0, py.Call#0) -> false",
+		"[err == nil && s.s.firstErr != nil && s.s.keyFunc != None && s.s.reverse] s.s.l.M__getitem__(i); s.s.l.M__getitem__(j); Call(s.s.keyFunc, composite[(*py.List).M__getitem__#0], nil); Call(s.s.keyFunc, composite[(*py.List).M__getitem__#0'2], nil); Lt(py.Call#0'2, py.Call#0) -> false",
 		"[err == nil && s.s.firstErr != nil && s.s.keyFunc != None] s.s.l.M__getitem__(i); s.s.l.M__getitem__(j); Call(s.s.keyFunc, composite[(*py.List).M__getitem__#0], nil) -> false",
-		"[err == nil && s.s.firstErr != nil && s.s.keyFunc != None] s.s.l.M__getitem__(i); s.s.l.M__getitem__(j); Call(s.s.keyFunc, composite[(*py.List).M__getitem__#0], nil); Call(s.s.keyFunc, composite[(*py.List).M__getitem__#0], nil) -> false",
-		"[err == nil && s.s.firstErr != nil && s.s.keyFunc == None && s.s.reverse] s.s.l.M__getitem__(i); s.s.l.M__getitem__(j); Lt((*py.List).M__getitem__#0, (*py.List).M__getitem__#0) -> false",
+		"[err == nil && s.s.firstErr != nil && s.s.keyFunc != None] s.s.l.M__getitem__(i); s.s.l.M__getitem__(j); Call(s.s.keyFunc, composite[(*py.List).M__getitem__#0], nil); Call(s.s.keyFunc, composite[(*py.List).M__getitem__#0'2], nil) -> false",
+		"[err == nil && s.s.firstErr != nil && s.s.keyFunc == None && s.s.reverse] s.s.l.M__getitem__(i); s.s.l.M__getitem__(j); Lt((*py.List).M__getitem__#0'2, (*py.List).M__getitem__#0) -> false",
 		"[err == nil && s.s.firstErr != nil] s.s.l.M__getitem__(i); s.s.l.M__getitem__(j) -> false",
-		"[err == nil && s.s.firstErr == nil && s.s.keyFunc != None && s.s.reverse] s.s.l.M__getitem__(i); s.s.l.M__getitem__(j); Call(s.s.keyFunc, composite[(*py.List).M__getitem__#0], nil); Call(s.s.keyFunc, composite[(*py.List).M__getitem__#0], nil); Lt(py.Call#0, py.Call#0); s.s.firstErr = err! -> false",
-		"[err == nil && s.s.firstErr == nil && s.s.keyFunc != None] s.s.l.M__getitem__(i); s.s.l.M__getitem__(j); Call(s.s.keyFunc, composite[(*py.List).M__getitem__#0], nil); Call(s.s.keyFunc, composite[(*py.List).M__getitem__#0], nil); s.s.firstErr = err! -> false",
+		"[err == nil && s.s.firstErr == nil && s.s.keyFunc != None && s.s.reverse] s.s.l.M__getitem__(i); s.s.l.M__getitem__(j); Call(s.s.keyFunc, composite[(*py.List).M__getitem__#0], nil); Call(s.s.keyFunc, composite[(*py.List).M__getitem__#0'2], nil); Lt(py.Call#0'2, py.Call#0); s.s.firstErr = err! -> false",
+		"[err == nil && s.s.firstErr == nil && s.s.keyFunc != None] s.s.l.M__getitem__(i); s.s.l.M__getitem__(j); Call(s.s.keyFunc, composite[(*py.List).M__getitem__#0], nil); Call(s.s.keyFunc, composite[(*py.List).M__getitem__#0'2], nil); s.s.firstErr = err! -> false",
 		"[err == nil && s.s.firstErr == nil && s.s.keyFunc != None] s.s.l.M__getitem__(i); s.s.l.M__getitem__(j); Call(s.s.keyFunc, composite[(*py.List).M__getitem__#0], nil); s.s.firstErr = err! -> false",
-		"[err == nil && s.s.firstErr == nil && s.s.keyFunc == None && s.s.reverse] s.s.l.M__getitem__(i); s.s.l.M__getitem__(j); Lt((*py.List).M__getitem__#0, (*py.List).M__getitem__#0); s.s.firstErr = err! -> false",
+		"[err == nil && s.s.firstErr == nil && s.s.keyFunc == None && s.s.reverse] s.s.l.M__getitem__(i); s.s.l.M__getitem__(j); Lt((*py.List).M__getitem__#0'2, (*py.List).M__getitem__#0); s.s.firstErr = err! -> false",
 		"[err == nil && s.s.firstErr == nil] s.s.l.M__getitem__(i); s.s.l.M__getitem__(j); s.s.firstErr = err! -> false",
 	}
 }
